@@ -481,6 +481,8 @@ async def run_scenario(loop, scenario, **kw):
         tr.audits.append((len(tr.steps), tr.conn.connection_state is S.CLOSED, timers, pending))
 
     with tr.net.patched():
+        # the step of the driver that created the trace began before the loop hooks were installed: start the scenario in a fresh step
+        await asyncio.sleep(0)
         for a in scenario:
             if a[0] == "drain":
                 await simnet.drain(loop)
